@@ -358,6 +358,7 @@ Qed.
 Lemma loco_solve_cache l req dt on l' : loco_solve l req dt on = Ok l' -> CacheInv l -> CacheInv l'.
 Proof.
   intros H Hc. unfold loco_solve in H. cbv zeta in H. unfold CacheInv in Hc.
+  destruct (ensure _ 803) as [[]| |]; cbn [bind] in H; try discriminate.
   destruct (lc_type l) as [c|b].
   - destruct (conv_solve c req dt on (ls_pwr_aux (lc_state l)) (lc_assert_limits l)) as [c'| |] eqn:Ec; cbn [bind] in H; try discriminate.
     inversion H; subst. unfold CacheInv; cbn [lc_type loco_with]. destruct Hc as [Hg He].
